@@ -55,7 +55,7 @@ func (c *vCliClient) EdgePoints(id, parent string, pts []data.Point) {
 func c08Name() string {
 	s := vStr(vChoose(2))
 	for i := 0; i < len(s); i++ {
-		vAssume(s[i] == 'c' || s[i] == 'x')
+		vAssume(s[i] == 'c' || s[i] == 'd' || s[i] == 'x')
 	}
 	return s
 }
@@ -63,7 +63,9 @@ func c08Name() string {
 func HarnessC08Deliver() {
 	nc := vConn()
 	t0 := vInstant(19886, 0, 0, 0)
-	// stored state of the client's node
+	// stored state of the client nodes: c (with a child k) and, with two
+	// clients, a sibling d of the same type
+	two := vParam("clients", 1) == 2
 	v0 := vF64()
 	vAssume(v0 == v0)
 	d0 := vStr(1)
@@ -74,6 +76,12 @@ func HarnessC08Deliver() {
 			{Type: "description", Key: "0", Time: t0, Text: d0},
 		}},
 		{ID: "k", Parent: "c", Type: "other"},
+	}
+	if two {
+		tree = append(tree, data.NodeEdge{ID: "d", Parent: "root0", Type: "vCli", Points: data.Points{
+			{Type: "value", Key: "0", Time: t0, Value: v0},
+			{Type: "description", Key: "0", Time: t0, Text: d0},
+		}})
 	}
 	vServeNodes(nc, "root0", tree)
 
@@ -86,13 +94,23 @@ func HarnessC08Deliver() {
 	m.root = "root0"
 	err := m.scan("root0")
 	vAssert(err == nil, "scan succeeds")
-	vAssert(len(made) == 1, "exactly one client is constructed for the one live node of the type")
-	cl := made[0]
-	vAssert(cl.cfg.ID == "c" && cl.cfg.Parent == "root0" && cl.cfg.Value == v0 && cl.cfg.Description == d0, "the client is constructed from the node's current points")
+	if !two {
+		vAssert(len(made) == 1, "exactly one client is constructed for the one live node of the type")
+	} else {
+		vAssert(len(made) == 2 && made[0].cfg.ID != made[1].cfg.ID, "one client is constructed per live node of the type")
+	}
+	for _, cl := range made {
+		vAssert((cl.cfg.ID == "c" || (two && cl.cfg.ID == "d")) && cl.cfg.Parent == "root0" && cl.cfg.Value == v0 && cl.cfg.Description == d0, "the client is constructed from the node's current points")
+	}
 
-	// one batch from one author (one origin) for the client's node, a child or an unrelated node
+	// one batch from one author (one origin) for a client's node or a child;
+	// the store republishes it on the subject of the node and of every ancestor
 	origin := c08Name()
-	target := []string{"c", "k"}[vChoose(2)]
+	targets := []string{"c", "k"}
+	if two {
+		targets = append(targets, "d")
+	}
+	target := targets[vChoose(len(targets))]
 	edge := vBool()
 	var batch data.Points
 	for i, n := 0, 1+vChoose(vParam("batch", 2)); i < n; i++ {
@@ -102,22 +120,39 @@ func HarnessC08Deliver() {
 	}
 	payload, err := batch.ToPb()
 	vAssume(err == nil)
-	subject := "up.c." + target
-	if edge {
-		subject += ".root0"
+	chain := map[string][]string{"c": {"c", "root0"}, "k": {"k", "c", "root0"}, "d": {"d", "root0"}}[target]
+	parent := map[string]string{"c": "root0", "k": "c", "d": "root0"}[target]
+	for _, anc := range chain {
+		subject := "up." + anc + "." + target
+		if edge {
+			subject += "." + parent
+		}
+		vPublish(nc, subject, payload)
 	}
-	vPublish(nc, subject, payload)
 
+	for _, cl := range made {
+		c08Check(cl, origin, target, parent, edge, batch, v0, d0)
+	}
+}
+
+func c08Check(cl *vCliClient, origin, target, parent string, edge bool, batch data.Points, v0 float64, d0 string) {
 	cl.mu.Lock()
 	defer cl.mu.Unlock()
+	id := cl.cfg.ID
+	below := target == id || (id == "c" && target == "k")
+	if !below {
+		vCover("c08: outside the subtree")
+		vAssert(len(cl.points) == 0 && len(cl.edges) == 0, "a client is not told of changes outside its subtree")
+		return
+	}
 	if edge {
 		vCover("c08: edge points")
 		vAssert(len(cl.points) == 0, "edge points are not delivered as node points")
-		vAssert(len(cl.edges) == 1 && cl.edgeIDs[0] == target+".root0", "edge points below the client are passed through once")
+		vAssert(len(cl.edges) == 1 && cl.edgeIDs[0] == target+"."+parent, "edge points below the client are passed through once")
 		vAssert(len(cl.edges[0]) == len(batch), "edge batch is passed through whole")
 		return
 	}
-	own := origin == "c" || (origin == "" && target == "c")
+	own := origin == id || (origin == "" && target == id)
 	if own {
 		vCover("c08: own points filtered")
 		vAssert(len(cl.points) == 0 && len(cl.edges) == 0, "a client is never told of points it authored itself")
@@ -130,7 +165,7 @@ func HarnessC08Deliver() {
 		g := cl.points[0][i]
 		vAssert(g.Type == batch[i].Type && g.Value == batch[i].Value && g.Text == batch[i].Text && g.Origin == batch[i].Origin && g.Time.Equal(batch[i].Time), "delivered points are the accepted points, in order")
 	}
-	if target == "c" {
+	if target == id {
 		// folding the batch gives what the store holds: newest per identity
 		wantV, wantD := v0, d0
 		for _, p := range batch {
